@@ -61,6 +61,12 @@ CLAIMS = {
         technique="Coq proof by induction (simulation of CPython's unpacking loop) + vm_compute table obligations + in-Coq correspondence",
         design="7/C02",
     ),
+    "C12": dict(
+        text="PARTIAL proof + monitored execution. Proved in Coq over EVERY instruction stream and the four listing formats: the rows of the listing are, once each and in order, the instructions the format shows (all for bytes, all but CACHE otherwise) with their offset, opcode, name, operand, operand text, jump-target flag; offsets stay strictly increasing (no row twice); the line column is the instruction's starts_line unless it follows SET_LINENO; each line begins with line column (blank iff none), '>>' iff jump target, and the decimal offset (decimal printing is injective). The model produces the exact text of Bytecode.dis(): compared code point by code point inside Coq for classic and bytes, and on the row prefix of every line for extended/extended-bytes, over the corpus, files compiled by the nine installed compilers and synthetic sequences for all 39 tables. Totality, clean stdout/stderr and 'the stream is exactly header + code info + listing (+ exception table)' are observed for all six formats on every file.",
+        note="Trusted: Coq kernel; hand model coq/Model/Listing.v (listing loop + Instruction.disassemble columns) + correspondence; the Instruction records fed to the model are the implementation's (tied to the bytes by C02/C03/C05/C17). NOT modelled: operand text of the extended formats (stack simulation), xasm text, header text - for these only totality/cleanliness is decided, by execution on real compiler output, which is not a theorem. No axioms.",
+        technique="Coq proof by induction over the listing loop + in-Coq text correspondence + monitored execution of all formats",
+        design="7/C12",
+    ),
     "C19": dict(
         text="Machine-checked Coq proofs of the round-trip law for the three freeze() encoders, for EVERY mapping with offsets strictly increasing from 0 and consecutive lines different, offset and line gaps unbounded (continuation entries are induction cases): findlinestarts(decode) of Code3/Code38's table (signed, any decreasing lines), of Code15/Code2's table (lines increasing; reads back under both the unsigned and the signed rule), and of Code310's range table (via co_lines()) returns the mapping. By the C05 theorems the decoders used are CPython's. Encoder models tied to /repo by in-Coq correspondence (dict and list inputs, boundary gaps); model-made tables are additionally decoded by the real 2.7, 3.6-3.10.",
         note="Trusted: Coq kernel; hand model coq/Model/Freeze.v (while-loops as closed forms) + correspondence harness; C05 decoder theorems and spec validation. Hypotheses stated in the theorems: offsets start at 0, lie inside co_code, consecutive lines differ; for 1.5-2.7 lines do not decrease. No axioms.",
